@@ -202,7 +202,9 @@ class SymReal:
         r = self._cmp(o, lambda a, b: a != b)
         return True if r is NotImplemented else r
 
-    __hash__ = None
+    def __hash__(self):
+        # equal values get the same canonical token on a path, hence the same hash
+        return hash(ENGINE.format_symbolic(self, ""))
 
     # ---- leaks --------------------------------------------------------------
     def __float__(self):
